@@ -5,6 +5,7 @@
  * usage: h_one <cfgpath> <resultfile> [uid] [ncalls] [devlogpath|-] [message length -> env M] [fill char]
  * The executable contains snoopy's objects (production wrapper); librec.so is the real-exec seam. */
 #include <errno.h>
+#include <termios.h>
 #include <signal.h>
 #include <sys/resource.h>
 #include <fcntl.h>
@@ -90,6 +91,9 @@ int main(int argc, char **argv) {
           const char *fds = strchr(st, ':'); fds = fds ? fds + 1 : "1";
           for (const char *q = fds; *q; q++) {
               int target = *q - '0', p[2];
+              if (!strncmp(st, "ttystopped", 10)) { /* a terminal (not the controlling one) whose output is stopped (Ctrl-S / tcflow(TCOOFF)) and whose other side nobody reads */
+                  int m = posix_openpt(O_RDWR | O_NOCTTY); grantpt(m); unlockpt(m); int sl = open(ptsname(m), O_RDWR | O_NOCTTY); struct termios t; tcgetattr(sl, &t); cfmakeraw(&t); tcsetattr(sl, TCSANOW, &t);
+                  tcflow(sl, TCOOFF); dup2(sl, target); close(sl); continue; }
               if (!strncmp(st, "file4096", 8)) { char z[4096]; memset(z, 'z', sizeof z); int f = open("stdfile", O_WRONLY | O_CREAT | O_TRUNC | O_APPEND, 0644); if (f < 0 || write(f, z, sizeof z) != (ssize_t)sizeof z) return 3; dup2(f, target); close(f); continue; }
               if (!strncmp(st, "sockgone", 8)) { if (socketpair(AF_UNIX, SOCK_STREAM, 0, p)) return 3; close(p[0]); dup2(p[1], target); close(p[1]); continue; }
               if (pipe(p)) return 3;
